@@ -88,11 +88,14 @@ PushK(m, base, k, kmax, node) ==
   IF k = kmax THEN m1
   ELSE PushK(m1, base, k + 1, kmax, m1[base + k - (2^(k + 1) - 1)] \o node)
 PushLeaf(m, i, b) == PushK(m, LeafPos(i), 0, TZ(i + 1), <<b>>)
-MmrNodes(n) == {<<i, k>> \in (0..n) \X (0..5) : k <= TZ(i + 1)}
-MmrOf(ch) ==
-  LET nodes == MmrNodes(Len(ch) - 1) IN
-  [p \in {LeafPos(e[1]) + e[2] : e \in nodes} |->
-     LET e == CHOOSE e \in nodes : LeafPos(e[1]) + e[2] = p IN SubSeq(ch, e[1] + 2 - 2^e[2], e[1] + 1)]
+\* declaratively: leaf i (block number i) closes the nodes of heights 0..TZ(i+1) at the positions LeafPos(i) + k; the node of
+\* height k covers the last 2^k blocks ending at i  (written leaf by leaf so that chains of some hundred blocks stay cheap)
+RECURSIVE MmrUpTo(_, _)
+MmrUpTo(ch, i) ==
+  IF i < 0 THEN <<>>
+  ELSE LET base == LeafPos(i) IN
+       [p \in base..(base + TZ(i + 1)) |-> SubSeq(ch, i + 2 - 2^(p - base), i + 1)] @@ MmrUpTo(ch, i - 1)
+MmrOf(ch) == MmrUpTo(ch, Len(ch) - 1)
 
 \* ---------------------------------------------------------------- the code's attach / detach
 OkExt(e, b) == [e EXCEPT !.ver = "ok",
